@@ -1,6 +1,7 @@
 """progen -- typed, executable programs: Hypothesis recipe strategies + deterministic builder.
 
     program_recipes(features_=None, **overrides) -> SearchStrategy[recipe]   (feature dict and/or keyword flags)
+    recursive_recipes(features_=None, **overrides) -> SearchStrategy[recipe]  bounded (mutual) recursion, "rec" funcs
     build(recipe) -> ModuleOp          valid by construction; module.verify() is asserted (failure = generator bug)
     input_vectors(func_recipe, n, ints, index_bits=64) -> [tuple of refsem-form argument values]
     entry(recipe) -> (function name, func_recipe)      the last function; it may call the earlier ones
@@ -66,7 +67,7 @@ import struct
 
 from hypothesis import strategies as st
 
-__all__ = ["program_recipes", "build", "input_vectors", "entry", "signature", "features", "op_counts",
+__all__ = ["program_recipes", "recursive_recipes", "build", "input_vectors", "entry", "signature", "features", "op_counts",
            "render", "RecipeError", "boundary_ints", "boundary_float_bits", "DEFAULT_FEATURES"]
 
 
@@ -285,6 +286,20 @@ def _g(d, k, default=0):
 
 def _int(v, default=0):
     return v if isinstance(v, int) and not isinstance(v, bool) else default
+
+
+def _presig(fr):
+    """(argument type names, result type names) of a function recipe, checked."""
+    atys = []
+    for t in fr.get("args") or []:
+        xtype(t)
+        atys.append(t)
+    rtys = []
+    for p_ in fr.get("ret") or []:
+        if isinstance(p_, (list, tuple)) and len(p_) == 2:
+            xtype(p_[0])
+            rtys.append(p_[0])
+    return atys, rtys
 
 
 class _Builder:
@@ -842,6 +857,8 @@ class _Builder:
     def func(self, i, fr):
         from xdsl.dialects import arith, builtin as b, cf, func
         from xdsl.ir import Block, Region
+        if isinstance(fr.get("rec"), dict):
+            return self.rec_func(i, fr)
         atys = []
         for t in fr.get("args") or []:
             xtype(t)
@@ -982,12 +999,106 @@ class _Builder:
         self.sigs.append((atys, rtys))
         return func.FuncOp(f"f{i}", ([xtype(t) for t in atys], [xtype(t) for t in rtys]), Region(allblocks))
 
+    # ---- bounded recursion -----------------------------------------------------------------
+    _MIX_INT = ("addi", "subi", "muli", "xori", "andi", "ori")
+    _MIX_FLOAT = ("addf", "subf", "mulf")
+
+    def rec_func(self, i, fr):
+        """func with "rec": f(n, xs...) = base(...) if n <= 0 else mix(f'(n - dec, ...), values defined BEFORE
+        the call); f' is f itself or (mutual) another "rec" function with the same signature."""
+        from xdsl.dialects import arith, cf, func, scf
+        from xdsl.ir import Block, Region
+        rec = fr["rec"]
+        atys, rtys = _presig(fr)
+        if not atys or not _is_int(atys[0]) or _width(atys[0], self.ib) < 8:
+            raise RecipeError("recursive function needs an integer counter (>= 8 bits) as first argument")
+        if not rtys:
+            raise RecipeError("recursive function without results")
+        rets = [(p[0], p[1]) for p in fr.get("ret") or [] if isinstance(p, (list, tuple)) and len(p) == 2]
+        ct = atys[0]
+        target = i
+        if _g(rec, "mutual"):
+            cands = [j for j, (sig, isrec) in enumerate(self.presigs) if isrec and j != i and sig == (atys, rtys)]
+            if cands:
+                target = cands[_int(rec.get("partner")) % len(cands)]
+        entry = Block(arg_types=[xtype(t) for t in atys])
+        root = _Scope()
+        ectx = _Ctx(root)
+        for a, t in zip(entry.args, atys):
+            root.add(a, t)
+        n = entry.args[0]
+        self.stmts(ectx, rec.get("pre"), 0)
+        zero = self.const(ectx, ct, 0, visible=False)
+        cond = arith.CmpiOp(n, zero, "sle")
+        ectx.ops.append(cond)
+
+        def base_vals(ctx):
+            self.stmts(ctx, rec.get("base"), 1)
+            return [self.ref(ctx, t, r) for t, r in rets]
+
+        def rec_vals(ctx):
+            dec = self.const(ctx, ct, 1 + abs(_int(rec.get("dec"))) % 2, visible=False)
+            n1 = arith.SubiOp(n, dec)
+            ctx.ops.append(n1)
+            self.stmts(ctx, rec.get("mid"), 1)
+            cargs = list(rec.get("cargs") or [])
+            args = [n1.results[0]] + [self.ref(ctx, t, cargs[k] if k < len(cargs) else k)
+                                      for k, t in enumerate(atys[1:])]
+            # operands of the mixes are chosen (and, if need be, materialised) BEFORE the call
+            uses = list(rec.get("use") or [])
+            pre = [self.ref(ctx, t, uses[k] if k < len(uses) else 0) for k, t in enumerate(rtys)]
+            call = func.CallOp(f"f{target}", args, [xtype(t) for t in rtys])
+            self.emit(ctx, call, rtys)
+            self.stmts(ctx, rec.get("post"), 1)
+            mixes = list(rec.get("mix") or [])
+            out = []
+            for k, t in enumerate(rtys):
+                name = mixes[k] if k < len(mixes) else None
+                cur = self.ref(ctx, t, 0)
+                if t.startswith("memref<"):
+                    out.append(cur)
+                    continue
+                allowed = self._MIX_FLOAT if _is_float(t) else self._MIX_INT
+                if name not in allowed:
+                    name = allowed[0]
+                o = _arith_cls(name)(cur, pre[k])
+                self.emit(ctx, o, [t])
+                out.append(o.results[0])
+            return out
+
+        name = f"f{i}"
+        ftype = ([xtype(t) for t in atys], [xtype(t) for t in rtys])
+        if rec.get("form") == "scf":
+            def fin(make):
+                def f(c2, blk):
+                    c2.ops.append(scf.YieldOp(*make(c2)))
+                return f
+            tb = self.block([], root, [], 1, fin(base_vals))
+            eb = self.block([], root, [], 1, fin(rec_vals))
+            ifop = scf.IfOp(cond.results[0], [xtype(t) for t in rtys], Region(tb), Region(eb))
+            ectx.ops.append(ifop)
+            ectx.ops.append(func.ReturnOp(*ifop.results))
+            entry.add_ops(ectx.ops)
+            self.sigs.append((atys, rtys))
+            return func.FuncOp(name, ftype, Region([entry]))
+        bb, rb = Block(), Block()
+        ectx.ops.append(cf.ConditionalBranchOp(cond.results[0], bb, [], rb, []))
+        entry.add_ops(ectx.ops)
+        for blk, make in ((bb, base_vals), (rb, rec_vals)):
+            ctx = _Ctx(_Scope(root))
+            vals = make(ctx)
+            ctx.ops.append(func.ReturnOp(*vals))
+            blk.add_ops(ctx.ops)
+        self.sigs.append((atys, rtys))
+        return func.FuncOp(name, ftype, Region([entry, bb, rb]))
+
     def module(self):
         from xdsl.dialects import builtin as b, func
         funcs = []
         frs = [f for f in (self.recipe.get("funcs") or []) if isinstance(f, dict)]
         if not frs:
             raise RecipeError("recipe without functions")
+        self.presigs = [(_presig(f), isinstance(f.get("rec"), dict)) for f in frs]
         for i, fr in enumerate(frs):
             funcs.append(self.func(i, fr))
         decls = [func.FuncOp.external(n, [xtype(t) for t in a], [xtype(t) for t in r])
@@ -1413,3 +1524,75 @@ def _programs(F):
     inputs = st.lists(st.integers(0, (1 << 64) - 1), min_size=1,
                       max_size=max(1, F["n_inputs"] * max(1, F["max_args"])))
     return st.fixed_dictionaries({"funcs": funcs, "inputs": inputs, "ib": st.just(32 if F["index_bits"] == 32 else 64)})
+
+
+def recursive_recipes(features_=None, **overrides):
+    """Strategy of programs with BOUNDED RECURSION (additive family; same recipe grammar plus the "rec" key):
+    one recursive function f0 (or two mutually recursive ones f0/f1) followed by a driver that clamps its first
+    argument to 0..7 and calls f0.  A recursive function is
+        {"args": [counter int type, T...], "ret": [[T, ref]...],        ret refs: the base-case results
+         "rec": {"form": "cf"|"scf", "pre": [stmt...], "base": [stmt...], "mid": [stmt...], "post": [stmt...],
+                 "dec": int, "cargs": [ref...], "use": [ref...], "mix": [op name...], "mutual": 0|1, "partner": int}}
+    f(n, xs) = base results if n <= 0, else mix_k(result_k of f'(n - 1|2, cargs), value chosen by use_k BEFORE the
+    call) -- so every activation reads its own earlier values after the recursive call returns.  "cf" builds a
+    three-block CFG (entry / base / rec), "scf" an scf.if.  Only region-free statements are used in the bodies."""
+    F = features(features_, **overrides)
+    wl = F["op_names"]
+    ib = F["index_bits"]
+    ctys = [t for t in F["int_types"] if _width(t, ib) >= 8]
+    if not ctys:
+        raise ValueError("progen.recursive_recipes: needs an integer type of at least 8 bits")
+    forms = [f for f, need in (("cf", "cf.cond_br"), ("scf", "scf.if")) if wl is None or need in wl]
+    if not forms:
+        raise ValueError("progen.recursive_recipes: neither cf.cond_br nor scf.if is allowed")
+    mix_i = [m for m in _Builder._MIX_INT if wl is None or m in wl]
+    mix_f = [m for m in _Builder._MIX_FLOAT if wl is None or m in wl]
+
+    def for_types(tys):
+        ct = tys[0]
+        vt = [t for t in dict.fromkeys(tys) if (_is_int(t) and mix_i) or (_is_float(t) and mix_f)]
+        if not vt:
+            raise ValueError("progen.recursive_recipes: no mixing op allowed for the selected types")
+        Fs = dict(F, int_types=[t for t in dict.fromkeys([ct] + list(tys)) if _is_int(t)],
+                  float_types=[t for t in dict.fromkeys(tys) if _is_float(t)])
+        simple = st.one_of([s_.map(_ident) for w, s_ in _simple_stmts(Fs) for _ in range(w)])
+        body = st.lists(simple, max_size=3)
+        extra = st.lists(st.sampled_from(vt), max_size=2)
+        rt = st.lists(st.sampled_from(vt), min_size=1, max_size=2)
+        allmix = st.sampled_from(mix_i + mix_f)
+
+        def mk(extra_, rt_, form, pre, base, mid, post, dec, cargs, use, mix, mutual, retrefs, drv_body, drv_refs,
+               second):
+            sig_args = [ct] + extra_
+            ret = [[t, retrefs[k % len(retrefs)]] for k, t in enumerate(rt_)]
+
+            def recf(spec, partner):
+                return {"args": sig_args, "ret": ret,
+                        "rec": dict(spec, dec=dec, cargs=cargs, use=use,
+                                    mix=[m if (m in mix_f) == _is_float(t) else (mix_f if _is_float(t) else mix_i)[0]
+                                         for m, t in zip(mix, rt_)], mutual=mutual, partner=partner)}
+            funcs = [recf({"form": form, "pre": pre, "base": base, "mid": mid, "post": post}, 0)]
+            if mutual:
+                funcs.append(recf(second, 0))
+            driver = {"args": sig_args,
+                      # ref -1 = the OLDEST visible value of the type = the driver's own counter argument
+                      "body": drv_body + [{"op": "const", "t": ct, "v": 7},
+                                          {"op": "andi", "t": ct, "a": 0, "b": -1},
+                                          {"op": "callf", "f": 0, "args": [0] + drv_refs}],
+                      # result k of the call = the (number of later results of that type)-th most recent value
+                      "ret": [[t, sum(1 for u in rt_[k + 1:] if u == t)] for k, t in enumerate(rt_)]}
+            return {"funcs": funcs + [driver]}
+        spec2 = st.fixed_dictionaries({"form": st.sampled_from(forms), "pre": body, "base": body, "mid": body,
+                                       "post": body})
+        return st.builds(mk, extra, rt, st.sampled_from(forms), body, body, body, body, st.integers(0, 1),
+                         st.lists(_REF, max_size=2), st.lists(_REF, min_size=2, max_size=2),
+                         st.lists(allmix, min_size=2, max_size=2), st.sampled_from([0, 0, 1]),
+                         st.lists(_REF, min_size=1, max_size=2), st.lists(simple, max_size=2),
+                         st.lists(_REF, max_size=2), spec2)
+
+    vt_all = F["int_types"] + F["float_types"]
+    tys = st.tuples(st.sampled_from(ctys), st.lists(st.sampled_from(vt_all), max_size=2, unique=True)).map(
+        lambda p: [p[0]] + [t for t in p[1] if t != p[0]])
+    inputs = st.lists(st.integers(0, (1 << 64) - 1), min_size=1, max_size=max(1, F["n_inputs"] * 3))
+    progs = tys.flatmap(for_types)
+    return st.tuples(progs, inputs).map(lambda pi: dict(pi[0], inputs=pi[1], ib=32 if ib == 32 else 64))
